@@ -444,6 +444,12 @@ func (p *parser) primary() Expr {
 				if id, ok := args[0].(EIdent); ok {
 					return EOld{X: args[1], Label: id.Name}
 				}
+				if sel, ok := args[0].(ESel); ok {
+					// at(Recv.Name#k, e)
+					if id, ok := sel.X.(EIdent); ok {
+						return EOld{X: args[1], Label: id.Name + "." + sel.Name}
+					}
+				}
 			}
 			return ECall{t.v, args}
 		}
